@@ -108,7 +108,7 @@ impl Cond {
 
 #[derive(Clone, Debug, Default, PartialEq, Eq, PartialOrd, Ord, Serialize)]
 pub struct Cons {
-    /// carries the field mask of the alphabet (hides `name` and `attributes`)
+    /// carries the field mask of the alphabet (hides `name`, `attributes` and `valid_time`)
     pub masked: bool,
     /// classification ceiling, "" = none
     pub max_class: String,
